@@ -86,6 +86,17 @@ chk('C03',
     'rules do not determine are counted as unspecified.',
     'sanitizer build + reference-model monitor (independent typing rules) over generated programs and contexts', 'DESIGN.md 4 C03')
 
+chk('C04',
+    'Runtime monitoring with sanitizers and a reporting-discipline monitor: mutated valid expressions, a fixed hostile '
+    'list, raw/invalid-UTF-8 bytes, reference texts and pristine/mutated JSON documents are pushed through every public '
+    'analysis entry point (Parser, Auditor, Interpreter, ConvertTo, api::ParseExpression, RSFormJA and the real '
+    'pyconcept.cpp functions, Reference/RefsManager/ManagedText), half of them through long-lived analysers; deaths, '
+    'escaped exceptions (only the JSON exception on a non-pristine document is allowed), hangs of non-evaluating calls, '
+    '"failed <=> critical error" and error positions inside the input are judged per call.',
+    'Trusted: sanitizers, the driver. Inputs are bounded (4 KiB, nesting 200/1500); slow evaluations bounded by the '
+    'documented iteration limits are inconclusive, not hangs.',
+    'ASan+UBSan+libstdc++ assertions + exception trap + watchdog + error-report monitor over hostile inputs', 'DESIGN.md 4 C04')
+
 for _p in ['C01', 'C02', 'C03', 'C04', 'C05', 'C06', 'C07', 'C08', 'C09', 'C10', 'C11', 'C12', 'C13', 'C15', 'C16',
            'C17', 'C18', 'C19']:
     if _p not in CHECKS:
